@@ -116,6 +116,9 @@ class SetContract(FunctionContract):
         self.changed0 = z3.Bool("changed0")
 
     def Uf(self, a, b):
+        if not hasattr(self.uu, "U"):
+            raise Unsupported("unify is outside the modelled subset, so its outcome function is not available to "
+                              "SymbolKindTable.set")
         return self.uu.U(a, b)
 
     def params(self, ctx):
@@ -190,6 +193,8 @@ class SetContract(FunctionContract):
 class SetUnit(FunctionUnit):
     def generate(self):
         axioms, obs, info = super().generate()
+        if not hasattr(self.contract.uu, "U"):
+            raise Unsupported("unify is outside the modelled subset, so its outcome function is not available")
         U = self.contract.uu.U
         a, k1, k2 = z3.Consts("old k1 k2", Kind)
         ok, okk = Outcome.is_Ok, Outcome.ok_kind
